@@ -424,8 +424,10 @@ theorem code_matches_model :
       "FAIL: s.p.logger.Warnf(\"loop write exit: %v\", err)"] ∧
     Gen.Listener.refreshWaits =
       ["if err != nil | return",
+      "go | select <-req.done | return",
       "u.MakeRequestToHost",
-      "select <-u.quit | return",
+      "select <-giveUp | select <-u.quit | return",
+      "select <-giveUp | select default | return",
       "if resp.Type == Error | return",
       "if resp.Type != BulkString | return",
       "if err != nil | return"] ∧
